@@ -459,6 +459,11 @@ def p_abs(interp, x):
     raise Unsupported("abs")
 
 
+@prim("builtins.bool")
+def p_bool(interp, x=False):
+    return interp.truth(x)
+
+
 @prim("builtins.float")
 def p_float(interp, x):
     if isinstance(x, (int, float)):
